@@ -174,6 +174,40 @@ def also(sid, props):
     mf.write_text(json.dumps(meta, indent=1))
 
 
+def title_of(mf):
+    f = mf.parent / "notes.md"
+    if f.exists():
+        t = f.read_text().strip().split("\n")[0].lstrip("# ").strip()
+        t = re.sub(r"^C\d\d\s*(/|\(|,)?\s*(round\s*\w+\)?|\(round\s*\w+\))?\s*[/,]?\s*(change\s*\d+)?\s*[—\-–:]*\s*", "", t, flags=re.I)
+        return t[:150].replace("|", "\\|")
+    return ""
+
+
+def compact():
+    """rows for DESIGN.md: id, one-line summary, verdict of the registered check of its property (and of sibling checks)"""
+    out = ["| change | what was changed (one line, from the author's notes) | own check (quick) | other checks |", "|---|---|---|---|"]
+    for mf in sorted((V / "seeded").glob("*/meta.json")):
+        m = json.loads(mf.read_text())
+        c = m.get("check") or {}
+        v = (c.get("violation_lines") or [""])[0]
+        verdict = "not run" if not c else ("caught" + (", no-failing-input-found" if "no-failing-input-found" in v else " with failing input")) if m.get("caught") else f"MISSED (exit {c.get('exit')})"
+        oc = "; ".join(f"{p}: {'caught' if r['exit'] == 1 and r['violation_lines'] else 'no'}" for p, r in (m.get("other_checks") or {}).items())
+        out.append(f"| {mf.parent.name} | {title_of(mf)} | {verdict} | {oc} |")
+    return "\n".join(out)
+
+
+def splice():
+    d = V / "DESIGN.md"
+    s = d.read_text()
+    b, e = "<!-- SEEDED_TABLE_BEGIN (tools/seeded.py splice) -->", "<!-- SEEDED_TABLE_END -->"
+    block = b + "\n" + compact() + "\n" + e
+    if b in s:
+        s = s[:s.index(b)] + block + s[s.index(e) + len(e):]
+    else:
+        s = s.replace("SEEDED_TABLE", block, 1)
+    d.write_text(s)
+
+
 def table():
     print("| seeded change | property | needs | caught by `./check` (quick) | verdict line |")
     print("|---|---|---|---|---|")
@@ -199,5 +233,9 @@ if __name__ == "__main__":
         also(a[1], a[2:])
     elif a and a[0] == "table":
         table()
+    elif a and a[0] == "compact":
+        print(compact())
+    elif a and a[0] == "splice":
+        splice()
     else:
         print(__doc__)
